@@ -515,7 +515,27 @@ func c05hostileTile(r *h.Rand) ([]byte, string) {
 		if r.P(9, 10) {
 			feat = append(feat, pbUint(3, uint64([]int{1, 1, 2, 3, 0, 4}[r.Intn(6)]))...)
 		}
-		if r.P(9, 10) {
+		if r.P(1, 3) {
+			// well-formed command structure with degenerate parts: 1..3 rings / lines, each moveTo(1) + lineTo(k) with
+			// k in 0..3 and (almost always) exactly k coordinate pairs, with or without closePath
+			var geom []uint32
+			for rings := r.Range(1, 3); rings > 0; rings-- {
+				geom = append(geom, 1<<3|1, uint32(r.Intn(40)), uint32(r.Intn(40)))
+				k := uint32(r.Intn(4))
+				geom = append(geom, k<<3|2)
+				pairs := int(k)
+				if r.P(1, 10) {
+					pairs += r.Range(-1, 1)
+				}
+				for ; pairs > 0; pairs-- {
+					geom = append(geom, uint32(r.Intn(40)), uint32(r.Intn(40)))
+				}
+				if r.P(3, 4) {
+					geom = append(geom, uint32(r.Range(1, 2))<<3|7)
+				}
+			}
+			feat = append(feat, pbPacked(4, geom)...)
+		} else if r.P(9, 10) {
 			geom := []uint32{cmd()}
 			for k := r.Range(0, 8); k > 0; k-- {
 				if r.P(1, 3) {
